@@ -157,13 +157,28 @@ def own_series(connection, kind):
     return classified, series
 
 
-def main_body(connection, kind, gs):
+def main_body(connection, kind, gs, variant='all'):
     """(components, ids): connected groups of the classified intervals of
     that kind under 'share a grid level', largest (by distinct levels) first"""
     _, series = own_series(connection, kind)
     ids = sorted(series)
-    level_sets = [set(own_crossings(*series[s], gs)) for s in ids]
+    crossings = [own_crossings(*series[s], gs) for s in ids]
+    if variant == 'must':
+        level_sets = [set(k for k, (_, amb) in c.items() if not amb) for c in crossings]
+    else:
+        level_sets = [set(c) for c in crossings]
     return components(level_sets), ids
+
+
+def single_interval_body_possible(connection, kind, gs):
+    """True when, counting tie-ambiguous levels either way, some group with the
+    most distinct levels consists of a single interval (the situation of the
+    recorded C08 finding)"""
+    for variant in ('all', 'must'):
+        comps, _ = main_body(connection, kind, gs, variant)
+        if comps and any(len(m) == 1 for nl, m in comps if nl == comps[0][0]):
+            return True
+    return False
 
 
 def check_grid(connection):
